@@ -45,7 +45,7 @@ func init() {
 	Allopcodes = append(Allopcodes, Addf{})
 	Allopcodes = append(Allopcodes, Addf16{})
 	Allopcodes = append(Allopcodes, Addi{})
-	Allopcodes = append(Allopcodes, Addp{pipeline: new(bool)})
+	Allopcodes = append(Allopcodes, Addp{})
 	Allopcodes = append(Allopcodes, And{})
 	Allopcodes = append(Allopcodes, Chc{})
 	Allopcodes = append(Allopcodes, Chw{})
@@ -64,7 +64,7 @@ func init() {
 	Allopcodes = append(Allopcodes, Div{})
 	Allopcodes = append(Allopcodes, Divf{})
 	Allopcodes = append(Allopcodes, Divf16{})
-	Allopcodes = append(Allopcodes, Divp{pipeline: new(bool)})
+	Allopcodes = append(Allopcodes, Divp{})
 	Allopcodes = append(Allopcodes, Dpc{})
 	Allopcodes = append(Allopcodes, Expf{})
 	Allopcodes = append(Allopcodes, Hit{})
@@ -101,7 +101,7 @@ func init() {
 	Allopcodes = append(Allopcodes, Mult{})
 	Allopcodes = append(Allopcodes, Multf{})
 	Allopcodes = append(Allopcodes, Multf16{})
-	Allopcodes = append(Allopcodes, Multp{pipeline: new(bool)})
+	Allopcodes = append(Allopcodes, Multp{})
 	Allopcodes = append(Allopcodes, Nand{})
 	Allopcodes = append(Allopcodes, Nop{})
 	Allopcodes = append(Allopcodes, Nor{})
